@@ -75,17 +75,33 @@ def build(scratch):
     out = os.path.join(scratch, "sim.test")
     # optional overlay files reach into private functions; if the tree was refactored and one
     # no longer compiles it is dropped (the op it serves is then skipped), never a build error
-    optional = {os.path.join(REPO, "actions", "zz_verif_stream.go"): os.path.join(VERIF, "overlay", "actions_zz_verif_stream.go")}
-    full = dict(replace)
-    full.update(optional)
-    json.dump({"Replace": full}, open(ovj, "w"), indent=1)
-    r = subprocess.run([GO, "test", "-c", "-overlay", ovj, "-o", out, "."], cwd=VERIF + "/sim", env=env(), capture_output=True, text=True)
+    optional = [
+        (os.path.join(REPO, "actions", "zz_verif_stream.go"), os.path.join(VERIF, "overlay", "actions_zz_verif_stream.go")),
+        (os.path.join(REPO, "actions", "zz_verif_push.go"), os.path.join(VERIF, "overlay", "actions_zz_verif_push.go")),
+        (os.path.join(REPO, "services", "zz_verif_push.go"), os.path.join(VERIF, "overlay", "services_zz_verif_push.go")),
+    ]
+
+    def attempt(opts):
+        full = dict(replace)
+        full.update(dict(opts))
+        json.dump({"Replace": full}, open(ovj, "w"), indent=1)
+        return subprocess.run([GO, "test", "-c", "-overlay", ovj, "-o", out, "."], cwd=VERIF + "/sim", env=env(), capture_output=True, text=True)
+
+    r = attempt(optional)
     if r.returncode != 0:
-        json.dump({"Replace": replace}, open(ovj, "w"), indent=1)
-        r2 = subprocess.run([GO, "test", "-c", "-overlay", ovj, "-o", out, "."], cwd=VERIF + "/sim", env=env(), capture_output=True, text=True)
-        if r2.returncode != 0:
-            die("go test -c failed:\n" + r.stdout + r.stderr)
-        print("NOTE: optional overlay dropped: " + (r.stderr or "")[:300], file=sys.stderr)
+        # drop optional files one at a time, then all of them
+        ok = False
+        for i in range(len(optional)):
+            r2 = attempt(optional[:i] + optional[i + 1:])
+            if r2.returncode == 0:
+                print("NOTE: optional overlay dropped: " + optional[i][1], file=sys.stderr)
+                ok = True
+                break
+        if not ok:
+            r2 = attempt([])
+            if r2.returncode != 0:
+                die("go test -c failed:\n" + r.stdout + r.stderr)
+            print("NOTE: all optional overlays dropped: " + (r.stderr or "")[:300], file=sys.stderr)
     return out
 
 
